@@ -30,8 +30,25 @@ pub fn stress_tick() -> bool {
     t % k == 0
 }
 
-pub fn note_allocated(n: usize) {
+pub fn note_allocated(n: usize, limit: usize) {
     PEAK_ALLOCATED.fetch_max(n, Ordering::Relaxed);
+    if n > limit {
+        LIMIT_BREACHES.fetch_add(1, Ordering::Relaxed);
+        MAX_OVER_LIMIT.fetch_max(n - limit, Ordering::Relaxed);
+    }
+}
+
+/// H4: number of allocations after which a heap held more than its memory limit, and the largest
+/// excess in bytes
+pub static LIMIT_BREACHES: AtomicU64 = AtomicU64::new(0);
+pub static MAX_OVER_LIMIT: AtomicUsize = AtomicUsize::new(0);
+/// H4: largest value-stack length / frame count seen when a frame was entered
+pub static PEAK_STACK: AtomicUsize = AtomicUsize::new(0);
+pub static PEAK_FRAMES: AtomicUsize = AtomicUsize::new(0);
+
+pub fn note_stack(len: usize, frames: usize) {
+    PEAK_STACK.fetch_max(len, Ordering::Relaxed);
+    PEAK_FRAMES.fetch_max(frames, Ordering::Relaxed);
 }
 
 pub fn reset_counters() {
@@ -40,6 +57,10 @@ pub fn reset_counters() {
     COLLECTIONS.store(0, Ordering::Relaxed);
     FREED.store(0, Ordering::Relaxed);
     PEAK_ALLOCATED.store(0, Ordering::Relaxed);
+    LIMIT_BREACHES.store(0, Ordering::Relaxed);
+    MAX_OVER_LIMIT.store(0, Ordering::Relaxed);
+    PEAK_STACK.store(0, Ordering::Relaxed);
+    PEAK_FRAMES.store(0, Ordering::Relaxed);
 }
 
 /// Byte written over the value part of a quarantined block
